@@ -134,6 +134,32 @@ def stdlib_reach(prog, f, depth=3, seen=None):
     return out
 
 
+def explicit_raises(prog, f, depth=3, seen=None) -> set:
+    """Exception classes raised explicitly (raise / assert) by f and the in-package helpers it reaches."""
+    import ast as _ast
+
+    seen = seen if seen is not None else set()
+    out = set()
+    if f.qualname in seen or depth < 0:
+        return out
+    seen.add(f.qualname)
+    for n in _ast.walk(f.node):
+        if isinstance(n, _ast.Assert):
+            out.add("builtins.AssertionError")
+    try:
+        ps = P.paths_of(prog, f)
+    except Exception:
+        return out
+    for p in ps:
+        if p.exit[0] == "raise" and p.exit[1][0] == "call" and T.refname(p.exit[1][1]):
+            out.add(T.refname(p.exit[1][1]))
+        for c in p.calls():
+            n = T.refname(c[1])
+            if n and n.startswith(C.SERDES + ".") and n in prog.functions:
+                out |= explicit_raises(prog, prog.functions[n], depth - 1, seen)
+    return out
+
+
 FAMILY_CTOR = {
     "isdecimaltype": "decimal.Decimal",
     "isfractiontype": "fractions.Fraction",
@@ -147,8 +173,8 @@ FAMILY_CTOR = {
 }
 
 
-def r08_2(prog, rep, sup):
-    rows = C.handlers(prog, "unmarshal")
+def r08_2(prog, rep, sup, direction="unmarshal"):
+    rows = C.handlers(prog, direction)
     done = set()
     for r in rows:
         if r.routine is None:
@@ -156,10 +182,7 @@ def r08_2(prog, rep, sup):
         f = C.call_of(prog, r.routine)
         if f is None:
             continue
-        may = set()
-        for p in P.paths_of(prog, f):
-            if p.exit[0] == "raise" and p.exit[1][0] == "call" and T.refname(p.exit[1][1]):
-                may.add(T.refname(p.exit[1][1]))
+        may = {e for e in explicit_raises(prog, f) if e.startswith("builtins.") or e.startswith("decimal.") or e.startswith("re.")}
         reach = stdlib_reach(prog, f)
         for n in reach:
             for e in oracle.RAISE_SETS.get(n, []):
@@ -175,7 +198,7 @@ def r08_2(prog, rep, sup):
             done.add(key)
             cov = oracle.exc_covered(e, list(sup))
             rep.check(
-                cov, "R08.2", f"{r.pred_name}->{r.routine.name}", f.loc,
+                cov, "R08.2", f"{direction}:{r.pred_name}->{r.routine.name}" if direction == "marshal" else f"{r.pred_name}->{r.routine.name}", f.loc,
                 f"{e} raised while rejecting an input is covered by the union's suppress tuple",
                 f"a member of this family can reject an input with {e}, which the union's suppress tuple {sorted(x.rsplit('.', 1)[-1] for x in sup)} does not cover: the union aborts instead of trying the next member",
                 detail=e.rsplit(".", 1)[-1],
@@ -258,4 +281,5 @@ def run(prog: Program, rep: Report, tier: str):
     r08_7(prog, rep)
     if len(sups) == 2:
         rep.check(sups["marshal"] == sups["unmarshal"], "R08.5", "union routines", "", f"both suppress {sorted(x.rsplit('.', 1)[-1] for x in sups['marshal'])}", f"marshal suppresses {sorted(sups['marshal'])}, unmarshal {sorted(sups['unmarshal'])}")
-        r08_2(prog, rep, sups["unmarshal"])
+        r08_2(prog, rep, sups["unmarshal"], "unmarshal")
+        r08_2(prog, rep, sups["marshal"], "marshal")
